@@ -53,6 +53,16 @@ fn single_interp<'a, X: Clone + 'a>(t: &T<'a>) -> Option<Stream<'a, X>> {
 
 thread_local! {
     static DEPTH: Cell<usize> = Cell::new(0);
+    /// number of entries deleted from objects that kept other entries during the current run: after
+    /// such a deletion the order of the remaining entries is unspecified (jaq swaps the last entry
+    /// into the gap), and everything that later iterates over the object may see another order
+    pub static OBJ_DELETIONS: Cell<u64> = Cell::new(0);
+}
+
+fn note_obj_deletion(remaining: usize) {
+    if remaining >= 2 {
+        OBJ_DELETIONS.with(|d| d.set(d.get() + 1));
+    }
 }
 const MAX_DEPTH: usize = 4000;
 
@@ -1499,11 +1509,12 @@ fn iter_upd<'a>(v: Val, u: UpdFn<'a>, optional: bool) -> Stream<'a, Val> {
             let entries: Vec<(Val, Val)> = o.iter().map(|(k, x)| (k.clone(), x.clone())).collect();
             Stream::lazy(move || {
                 let mut out = Vec::new();
+                let n = entries.len();
                 for (k, x) in entries {
                     match u(x).take_items(1).into_iter().next() {
                         Some(Ok(y)) => out.push((k, y)),
                         Some(Err(e)) => return Step::Cons(Err(e), Stream::empty()),
-                        None => {}
+                        None => note_obj_deletion(n - 1),
                     }
                 }
                 Step::Cons(lift(Val::from_map(out)), Stream::empty())
@@ -1582,6 +1593,7 @@ fn index_upd<'a>(v: Val, i: Val, u: UpdFn<'a>, optional: bool) -> Stream<'a, Val
                         Ok(Some(y)) => entries[p].1 = y,
                         Ok(None) => {
                             entries.remove(p);
+                            note_obj_deletion(entries.len());
                         }
                     },
                     None => match first_of(u(Val::Null)) {
